@@ -1,5 +1,5 @@
 (* C04 — Combinational settling is complete and independent of construction order.
-   Statements only; proofs in Proofs/C04/{SortLemmas,Acyclic,Settle,Refute,Chain,Main}.v.
+   Statements only; proofs in Proofs/C04/{SortLemmas,Acyclic,Settle,Refute,Chain,Main,Compose}.v.
    Sorter model: Model/Sort.v (step-for-step Simulator.topologicalSort / findFirstDependentPosition as of /repo 04873f4,
    i.e. with the self-feed check; tied to the real Simulator.propagatables element for element and to the kind of
    exception on every run).  Evaluation: Model/SimKernel.v propagateAll. *)
